@@ -15,10 +15,12 @@ shutil.copytree(os.path.join(ROOT, "coq"), coq)
 env = dict(os.environ, VERIF_REPO=repo, VERIF_LOGIC_OUT=os.path.join(coq, "Gen", "LogicGen.v"), VERIF_LOGIC_STATUS=os.path.join(S, "status.json"))
 ties = sorted(os.path.basename(f)[:-2] for f in glob.glob(os.path.join(coq, "Proofs", "Tie*.v"))) + ["ChecksumTie", "ChecksumProofs", "TargetsProofs"]
 def run_ties():
-    subprocess.run(["python3", os.path.join(HERE, "gen_checksum.py")], env=dict(env, VERIF_GEN_OUT=os.path.join(coq, "Gen", "ChecksumGen.v")), capture_output=True)
+    p0 = subprocess.run(["python3", os.path.join(HERE, "gen_checksum.py")], env=dict(env, VERIF_GEN_OUT=os.path.join(coq, "Gen", "ChecksumGen.v")), capture_output=True, text=True)
     subprocess.run(["python3", os.path.join(HERE, "gen_logic.py")], env=env, capture_output=True)
     st = json.load(open(env["VERIF_LOGIC_STATUS"]))
     refused = [f["function"] for f in st.get("failed", [])]
+    if "cannot translate" in (p0.stdout + p0.stderr):
+        refused.append("rolling checksum (gen_checksum.py)")
     p = subprocess.run(["timeout", "1500", "make", "-k", "-j8"] + ["Proofs/%s.vo" % t for t in ties], cwd=coq, capture_output=True, text=True)
     broken = sorted(set(re.findall(r"\[Makefile:\d+: (?:Proofs|Gen)/(\w+)\.vo\] Error", p.stdout + p.stderr)))
     return refused, broken
